@@ -272,11 +272,45 @@ func addEnvIntrinsics(m map[string]intrinsic) {
 		}
 		return p.execFunction(fn, a, nil)
 	}
+	for i, name := range []string{"Year", "Month", "Day", "Hour", "Minute", "Second"} {
+		i := i
+		m["(time.Time)."+name] = func(p *Path, fn *ssa.Function, a []Value, pos token.Pos, caller *ssa.Function) []Value {
+			if c, ok := civil(p, a[0]); ok {
+				return []Value{c[i]}
+			}
+			return p.execFunction(fn, a, nil)
+		}
+	}
 	m["(time.Time).Nanosecond"] = func(p *Path, fn *ssa.Function, a []Value, pos token.Pos, caller *ssa.Function) []Value {
 		if c, ok := civil(p, a[0]); ok {
 			return []Value{c[6]}
 		}
 		return p.execFunction(fn, a, nil)
+	}
+	// go-mysql-server ENUM / SET column types (concrete structs whose constructors build collation hash tables): the
+	// harness's verifEnumType(n) / verifSetType(n) is natively the real type with n generated members; here it is the
+	// zero struct, NumberOfElements returns the harness's (symbolic) n and Convert is the identity (values reach the
+	// serializers out of storage already in the column's Go type)
+	for _, k := range []string{"EnumType", "SetType"} {
+		k := k
+		m["verif:verif"+k] = func(p *Path, fn *ssa.Function, a []Value, pos token.Pos, caller *ssa.Function) []Value {
+			p.userData["gms"+k] = p.intOf(a[0])
+			return []Value{p.zeroValue(fn.Signature.Results().At(0).Type())}
+		}
+		recv := "(github.com/dolthub/go-mysql-server/sql/types." + k + ")."
+		m[recv+"NumberOfElements"] = func(p *Path, fn *ssa.Function, a []Value, pos token.Pos, caller *ssa.Function) []Value {
+			n, ok := p.userData["gms"+k].(IntV)
+			if !ok {
+				return p.execFunction(fn, a, nil)
+			}
+			return []Value{IntV{T: p.ctx.Extract(n.T, 15, 0)}}
+		}
+		m[recv+"Convert"] = func(p *Path, fn *ssa.Function, a []Value, pos token.Pos, caller *ssa.Function) []Value {
+			if _, ok := p.userData["gms"+k].(IntV); !ok {
+				return p.execFunction(fn, a, nil)
+			}
+			return []Value{a[2], IntV{T: p.ctx.BV(8, 0)}, IfaceV{}}
+		}
 	}
 	// math/bits 128-bit helpers (the library bodies are long-division routines): exact wide-word semantics
 	m["math/bits.Mul64"] = func(p *Path, fn *ssa.Function, a []Value, pos token.Pos, caller *ssa.Function) []Value {
